@@ -1,9 +1,273 @@
-"""C04, schedule part (RecorderThreads.tla + detsched).  Filled in once the scheduler exists."""
+"""C04, schedule part: spec/RecorderThreads.tla schedules replayed on the real TapeRecorder with worker threads.
+
+Yield points of the deterministic scheduler = every point where the recorder calls out: serialisation of an argument
+while the key is built, the wrapped body (start and end), the data handler, cassette.abort_recording (entry and
+return).  Oracle = transparency per worker: the caller gets the very object / exception its body produced, each body
+runs exactly once, nothing else is raised into the service, and the operation returns its own result.
+"""
+import itertools
+import multiprocessing as mp
+import random
+
+from .. import mc, tlc
+from ..detsched import Scheduler, Deadlock, StepLimit
+from ..mc import Raw
+
+INVS = ['Transparent', 'BodyAtMostOnce', 'IdleAtEnd', 'SaveXorAbort']
+
+
+class Chooser(object):
+    def __init__(self, moves):
+        self.moves = list(moves)
+        self.i = 0
+        self.seen = 0
+        self.target = None
+        self.drift = 0
+
+    def __call__(self, enabled, sched):
+        new = sched.log[self.seen:]
+        self.seen = len(sched.log)
+        if self.target is not None and any(e['by'] == self.target for e in new):
+            self.target = None
+        names = [n for n, h in enabled if h == 'run']
+        if self.target is None and self.i < len(self.moves):
+            self.target = self.moves[self.i]
+            self.i += 1
+        if self.target is not None:
+            if self.target in names:
+                return (self.target, 'run')
+            self.drift += 1
+            self.target = None
+        return (sorted(names)[0], 'run') if names else enabled[0]
+
+
+def execute(faults, dact, moves):
+    from playback.tape_recorder import TapeRecorder, RecordingParameters
+    from playback.tape_cassettes.in_memory.in_memory_tape_cassette import InMemoryTapeCassette
+    from playback.tape_cassette import TapeCassette
+    from playback.interception.input_interception import InputInterceptionDataHandler
+    chooser = Chooser(moves)
+    sched = Scheduler(chooser, urgency=True, max_steps=3000)
+    inner = InMemoryTapeCassette()
+    res = {'violations': [], 'drift': 0}
+
+    class YieldingCassette(TapeCassette):
+        def create_new_recording(self, category):
+            return inner.create_new_recording(category)
+
+        def abort_recording(self, recording=None):
+            sched.emit('abort-entry')
+            sched.yield_point('cassette.abort')
+            r = inner.abort_recording(recording)
+            sched.emit('aborted')
+            sched.yield_point('cassette.aborted')
+            return r
+
+        def save_recording(self, recording):
+            return inner.save_recording(recording)
+
+        def _save_recording(self, recording):
+            return inner._save_recording(recording)
+
+        def get_recording(self, rid):
+            return inner.get_recording(rid)
+
+        def iter_recording_ids(self, *a, **k):
+            return inner.iter_recording_ids(*a, **k)
+
+        def extract_recording_category(self, rid):
+            return inner.extract_recording_category(rid)
+
+    class Arg(object):
+        """argument whose serialisation (key building) is a yield point; keyFail: it cannot be serialised"""
+
+        def __init__(self, w):
+            self.w = w
+
+        def __getstate__(self):
+            sched.emit('key-building')
+            sched.yield_point('key')
+            if faults[self.w] == 'keyFail':
+                raise RuntimeError('scripted: argument cannot be serialised')
+            return {'w': self.w}
+
+    class Handler(InputInterceptionDataHandler):
+        def prepare_input_for_recording(self, interception_key, result, args, kwargs):
+            w = args[1].w
+            sched.emit('prepare')
+            sched.yield_point('prepare')
+            if faults[w] == 'prepFail':
+                raise ValueError('scripted data handler failure')
+            return {'v': result}
+
+        def restore_input_from_recording(self, recorded_data, args, kwargs):
+            return recorded_data['v']
+
+    tr = TapeRecorder(YieldingCassette())
+    tr.enable_recording()
+    produced = {}
+    ran = {}
+    seen = {}
+    op_result = ['the operation result']
+
+    class Op(object):
+        @tr.operation()
+        def execute(self):
+            for w in sorted(faults):
+                sched.spawn(w, self.make_worker(w))
+            sched.spawn('d', self.discarder)
+            sched.block_until(lambda: all(sched.parts[p].state in ('done', 'killed') for p in list(faults) + ['d']), None, 'join')
+            sched.emit('joined')
+            return op_result
+
+        def make_worker(self, w):
+            def run():
+                try:
+                    seen[w] = ('val', self.inp(Arg(w)))
+                except BaseException as ex:  # noqa
+                    seen[w] = ('exc', ex)
+                sched.emit('call-done')
+            return run
+
+        def discarder(self):
+            sched.emit('d-start')
+            sched.yield_point('d')
+            if dact == 'discard':
+                tr.discard_recording()
+            elif dact == 'force':
+                tr.force_sample_recording()
+            sched.emit('d-done')
+
+        @tr.intercept_input('worker.input', data_handler=Handler())
+        def inp(self, arg):
+            w = arg.w
+            sched.emit('body-start')
+            sched.yield_point('body')
+            ran[w] = ran.get(w, 0) + 1
+            produced[w] = ['value of', w] if w != 'w2' else KeyError('raised by the body of w2')
+            sched.emit('body-end')
+            sched.yield_point('body-end')
+            if isinstance(produced[w], Exception):
+                raise produced[w]
+            return produced[w]
+    Op.__module__ = 'pbverif.opclasses'
+    import pbverif.opclasses as oc
+    Op.__qualname__ = Op.__name__ = 'ThreadsOp'
+    oc.ThreadsOp = Op
+    main_seen = []
+
+    def main():
+        try:
+            main_seen.append(('val', Op().execute()))
+        except BaseException as ex:  # noqa
+            main_seen.append(('exc', ex))
+    sched.spawn('m', main)
+    try:
+        sched.run()
+    except (Deadlock, StepLimit) as ex:
+        res['violations'].append('the operation does not finish: %s' % str(ex)[:200])
+    finally:
+        sched.shutdown()
+    for w in sorted(faults):
+        if ran.get(w, 0) != 1:
+            res['violations'].append('body of %s executed %d times' % (w, ran.get(w, 0)))
+        s = seen.get(w)
+        if s is None:
+            res['violations'].append('caller of %s never got an answer' % w)
+        elif isinstance(produced.get(w), Exception):
+            if not (s[0] == 'exc' and s[1] is produced[w]):
+                res['violations'].append('caller of %s saw %r instead of the exception its body raised' % (w, s))
+        elif not (s[0] == 'val' and s[1] is produced.get(w)):
+            res['violations'].append('caller of %s saw %r instead of the object its body returned' % (w, s))
+    if not main_seen or main_seen[0][0] != 'val' or main_seen[0][1] is not op_result:
+        res['violations'].append('operation outcome %r instead of its own result' % (main_seen,))
+    if tr.in_recording_mode or tr.is_recording_sample_forced:
+        res['violations'].append('recorder not idle after the operation')
+    res['drift'] = chooser.drift
+    res['steps'] = sched.steps
+    return res
+
+
+_G = {}
+
+
+def _work(task):
+    import logging
+    logging.disable(logging.CRITICAL)
+    name, faults, dact, items = task
+    g = _G[name]
+    out = []
+    for it in items:
+        moves = [g.states[n]['who'] for n in it[1:]]
+        r = execute(faults, dact, moves)
+        r['moves'] = moves
+        out.append(r)
+    return name, faults, dact, out
 
 
 def run_part(rep, tier, seed):
-    rep.extra['threads_part'] = 'not built yet'
+    rnd = random.Random(seed + 4)
+    quick = tier == 'quick'
+    cap = 400 if quick else 6000
+    workers = ['w1', 'w2']
+    configs = [(dict(zip(workers, f)), d) for f in itertools.product(['none', 'keyFail', 'prepFail'], repeat=2)
+               for d in ('discard', 'force', 'none')]
+    if quick:  # TLC start-up dominates: a seeded third of the configurations, the discard ones first
+        rnd.shuffle(configs)
+        configs = sorted(configs, key=lambda c: c[1] != 'discard')[:8]
+    total_sched = 0
+    with tlc.Scratch() as s:
+        for idx, (faults, dact) in enumerate(configs):
+            name = 'MC_C04T_%d' % idx
+            fl = Raw('(' + ' @@ '.join('"%s" :> "%s"' % kv for kv in sorted(faults.items())) + ')')
+            mc.write_mc(s, 'RecorderThreads', name, dict(Workers=set(workers), Fault=fl, DAct=dact), invariants=INVS,
+                        properties=['Terminates'], spec='Spec')
+            r, g = tlc.dump_graph(s, name, name + '.cfg')
+            rep.add_tlc('threads: faults=%s discarder=%s' % (sorted(faults.items()), dact), r, obligations=INVS + ['Terminates'])
+            if r.violation:
+                rep.violation({'summary': 'TLC: %s violated on RecorderThreads %s %s' % (r.violation, faults, dact),
+                               'signature': 'tlc:threads:%s' % r.violation})
+                continue
+            totalp, _ = g.count_paths()
+            if totalp <= cap:
+                paths = list(g.iter_all_paths())
+            else:
+                paths = g.edge_cover_paths(rnd)
+                if len(paths) > cap:
+                    rnd.shuffle(paths)
+                    paths = paths[:cap]
+                seenp = set(map(tuple, paths))
+                tries = 0
+                while len(paths) < cap and tries < 3 * cap:
+                    tries += 1
+                    p = tuple(g.random_path(rnd))
+                    if p not in seenp:
+                        seenp.add(p)
+                        paths.append(list(p))
+            for n in set(x for p in paths for x in p):
+                g.states[n]
+            _G[name] = g
+            total_sched += len(paths)
+            tasks = [(name, faults, dact, paths[i:i + 50]) for i in range(0, len(paths), 50)]
+            ctx = mp.get_context('fork')
+            with ctx.Pool(min(tlc.NCPU, max(1, len(tasks)))) as pool:
+                for nm, fts, da, out in pool.imap_unordered(_work, tasks):
+                    for res in out:
+                        rep.traces += 1
+                        rep.evaluations += 1
+                        rep.drift += res['drift']
+                        rep.note_behaviour(('threads', nm, tuple(res['moves'])), True)
+                        if res['violations']:
+                            rep.violation({'summary': 'threads: %s | faults=%s discarder=%s' % (res['violations'][0][:300], fts, da),
+                                           'signature': None, 'all': res['violations'][:4]},
+                                          replay={'kind': 'threads', 'faults': fts, 'dact': da, 'moves': res['moves']})
+            _G[name] = None
+    rep.extra['threads_part'] = {'configurations': len(configs), 'schedules_replayed': total_sched}
 
 
 def replay(rep, body):
-    return True
+    rp = body['replay']
+    res = execute(rp['faults'], rp['dact'], rp['moves'])
+    for v in res['violations']:
+        print('VIOLATING', v)
+    return not res['violations']
